@@ -151,6 +151,18 @@ def run(chk, profiles, total_quick=1600, total_thorough=60000, variant="hook", e
         "scenarios_matching_a_listed_known_finding": sum(1 for s in stats if s.get("known_finding_hits"))}
     if stats:
         chk.cov["samples"] = [{k: v for k, v in stats[0].items()}]
+    # ---- a tie is broken but no monitor clause fired yet: search further for a failing input ----------------
+    if bad and not mon and not any(d.get("impl_rc", 0) != 0 for _, d in bad):
+        for rnd in range(1, 6):
+            jobs = [((chk.seed + 7919 * rnd) * 104729 + w, per, profiles, c_exe, lean_exe, exclude, prop, list(KNOWN_MATCH))
+                    for w in range(vlib.NPROC)]
+            with multiprocessing.Pool(vlib.NPROC) as pool:
+                res2 = pool.map(_worker, jobs)
+            chk.cov["evaluations"] += sum(len(r[0]) for r in res2)
+            mon += [m for r in res2 for m in r[2]]
+            if mon:
+                break
+        chk.cov["input_distribution"]["extra_search_rounds_after_broken_tie"] = rnd
     # ---- verdicts ---------------------------------------------------------
     reported = False
     for lines, msgs in mon[:1]:
@@ -169,7 +181,7 @@ def run(chk, profiles, total_quick=1600, total_thorough=60000, variant="hook", e
                 (rc, out, err), _ = simcorr.run_pair(c_exe, lean_exe, small)
                 what = [l for l in err.splitlines() if "Assert" in l or "ERROR" in l or "runtime error" in l][:1]
                 chk.violation("a valid program makes the library terminate abnormally (rc=%d): %s" % (rc, (what or [err[-200:]])[0]),
-                              "\n".join(small) + "\n# stderr: " + err[-1500:].replace("\n", "\n# "), prop == "C10")
+                              "\n".join(small) + "\n# stderr: " + err[-1500:].replace("\n", "\n# "), True)
                 reported = True
                 break
     if bad and not reported:
